@@ -32,6 +32,7 @@ from typing import (
     List,
     Optional,
     Set,
+    Tuple,
     Union,
     overload,
 )
@@ -136,6 +137,9 @@ class SyncInterpreter(BaseInterpreter[TContext, TEvent]):
         self._is_processing: bool = False
         #: Chain depth of the event being processed, and the thread doing it.
         self._chain_depth: int = 0
+        #: Events processed so far in the chain of the event being handled
+        #: (a one-element list shared by every event the chain produces).
+        self._chain_count: List[int] = [0]
         self._drain_thread: Optional[int] = None
         #: Held by the one thread that is entering the initial configuration
         #: or draining the queue. It is only ever TRIED, never waited for, so
@@ -347,7 +351,7 @@ class SyncInterpreter(BaseInterpreter[TContext, TEvent]):
             return
 
         event_obj = self._prepare_event(event_or_type, **payload)
-        self._event_queue.append((event_obj, self._new_event_depth()))
+        self._event_queue.append((event_obj, *self._new_event_depth()))
         self._process_event_queue()
 
     def send_events(
@@ -362,12 +366,12 @@ class SyncInterpreter(BaseInterpreter[TContext, TEvent]):
 
         for event_or_type in events:
             event_obj = self._prepare_event(event_or_type)
-            self._event_queue.append((event_obj, self._new_event_depth()))
+            self._event_queue.append((event_obj, *self._new_event_depth()))
 
         self._process_event_queue()
 
-    def _new_event_depth(self) -> int:
-        """Chain depth for an event that is being queued right now.
+    def _new_event_depth(self) -> Tuple[int, List[int]]:
+        """Chain depth and chain counter for an event being queued right now.
 
         🔁 Only an event queued by the draining thread itself, while it is
         processing another event (a `raise`, a `done.*` notification, an
@@ -375,15 +379,21 @@ class SyncInterpreter(BaseInterpreter[TContext, TEvent]):
         callers, timer threads and actors start a new chain, so the bound on
         the chain never throttles or discards external traffic.
 
+        🌳 Depth alone does not bound a chain that FANS OUT: two `raise`
+        actions per step stay under any depth limit for 2**limit events. The
+        events of one chain therefore also share a counter of how many of
+        them have been processed.
+
         Returns:
-            int: The depth to store with the event.
+            Tuple[int, List[int]]: The depth and the shared chain counter to
+            store with the event.
         """
         if (
             self._is_processing
             and self._drain_thread == threading.get_ident()
         ):
-            return self._chain_depth + 1
-        return 0
+            return self._chain_depth + 1, self._chain_count
+        return 0, [0]
 
     def _process_event_queue(self) -> None:
         """Processes all events in the queue until it is empty.
@@ -430,8 +440,12 @@ class SyncInterpreter(BaseInterpreter[TContext, TEvent]):
             #    the very transition that completed it, or sent before a
             #    `stop()` issued from an action) were processed anyway.
             while self._event_queue and self.status == "running":
-                current_event, chain_depth = self._event_queue.popleft()
-                if chain_depth > limit:
+                current_event, chain_depth, chain_count = (
+                    self._event_queue.popleft()
+                )
+                if chain_depth > 0:
+                    chain_count[0] += 1
+                if chain_depth > limit or chain_count[0] > limit:
                     logger.error(
                         "🛑 Exceeded %d chained self-raised events on '%s'. "
                         "This usually means an action raises the event that "
@@ -442,6 +456,7 @@ class SyncInterpreter(BaseInterpreter[TContext, TEvent]):
                     )
                     continue
                 self._chain_depth = chain_depth
+                self._chain_count = chain_count
                 logger.info("⚙️ Processing event: '%s'", current_event.type)
 
                 for plugin in self._plugins:
